@@ -67,7 +67,9 @@ def cases(tier, seed):
             if tier == "quick" and k == 5 and si % 6 != seed % 6:
                 continue
             for ci in range(len(CONFIGS)):
-                for fam in ("layout", "dtype", "qshape", "linear", "perm"):
+                for fam in ("layout", "dtype", "qshape", "linear", "perm", "qgrid"):
+                    if fam == "qgrid" and (k != 4 or si % 5 != seed % 5):
+                        continue
                     if fam == "linear" and ci not in LINEAR:
                         continue
                     if fam == "perm" and tier == "quick" and (k == 5 or si % 3 != seed % 3):
@@ -299,7 +301,43 @@ def run(case, rec):
         other = _run(rec, factory, (e.astype(np.float32).astype(float), n), data, (qe, qn), "float32 round trip")
         _same(rec, base, other, tight, "float32-representable coordinates")
         return
+    if fam == "qgrid":
+        # everything shifted to projected-coordinate magnitudes; the query is a 3 x 4 grid whose nodes are displaced by up to 0.3 - NOT a
+        # meshgrid, although it is one to within 1e-5 of the coordinate values (seed C04-9): its prediction as a 2-D array (C and
+        # Fortran order) must be the prediction at the same points raveled
+        oe, on = 5.0e5, 7.5e6
+        e2, n2 = e + oe, n + on
+        ge, gn = np.meshgrid(np.linspace(1.0, 10.0, 4), np.linspace(1.5, 9.5, 3))
+        ge = ge + 0.3 * np.sin(np.arange(12.0)).reshape(3, 4) + oe
+        gn = gn + 0.3 * np.cos(2.0 * np.arange(12.0)).reshape(3, 4) + on
+        est = factory()
+        d = data[0] if len(data) == 1 else tuple(data)
+        if raised(call(rec, est.fit, (e2, n2), d)):
+            return rec.check(False, "fit at projected-coordinate magnitudes raised")
+        flat = call(rec, est.predict, (ge.ravel(), gn.ravel()))
+        if raised(flat):
+            return rec.check(False, "predict raised %r" % (flat,))
+        flat = [np.asarray(c) for c in flat] if isinstance(flat, tuple) else [np.asarray(flat)]
+        for name, (a, b) in {"2-D": (ge, gn), "2-D Fortran": (np.asfortranarray(ge), np.asfortranarray(gn)), "2-D transposed": (ge.T.copy(), gn.T.copy())}.items():
+            p = call(rec, est.predict, (a, b))
+            if raised(p):
+                rec.check(False, "predict with a %s query raised %r" % (name, p))
+                continue
+            comps = [np.asarray(c) for c in p] if isinstance(p, tuple) else [np.asarray(p)]
+            for f_, c_ in zip(flat, comps):
+                want = f_.reshape(3, 4).T if name == "2-D transposed" else f_.reshape(3, 4)
+                tol_ = 1e-9 * (1.0 + float(np.nanmax(np.abs(want))) if np.isfinite(want).any() else 1.0)
+                ok_ = c_.shape == a.shape and bool(np.all((np.abs(c_ - want) <= tol_) | (np.isnan(c_) & np.isnan(want))))
+                rec.check(ok_, "near-regular %s query at (5e5, 7.5e6): prediction %s differs from the prediction at the same points raveled %s"
+                          % (name, c_.ravel()[:4].tolist(), want.ravel()[:4].tolist()))
+        return
     if fam == "qshape":
+        # the query columns as views of ONE (n, 2) table, in either column order (seed C04-10)
+        tab = np.column_stack([qe, qn]); tab_sw = np.column_stack([qn, qe])
+        for name, (a, b) in {"columns of one table": (tab[:, 0], tab[:, 1]), "columns of one table, northing first": (tab_sw[:, 1], tab_sw[:, 0]),
+                             "rows of one table": (np.vstack([qe, qn])[0], np.vstack([qe, qn])[1])}.items():
+            other = _run(rec, factory, (e, n), data, (a, b), "query " + name)
+            _same(rec, base, other, tight, "query given as %s" % name)
         for name, (a, b) in {
             "2-D": (qe.reshape(3, 3), qn.reshape(3, 3)),
             "2-D Fortran": (np.asfortranarray(qe.reshape(3, 3)), np.asfortranarray(qn.reshape(3, 3))),
